@@ -53,7 +53,7 @@ def clean_wt():
 def run_demo(pid, x, out):
     rs = out + '/%s.demo.rs' % x
     shf = out + '/%s.demo.sh' % x
-    if os.path.exists(rs):
+    if os.path.exists(rs) and not os.path.exists(shf):
         name = 'seed_demo_%s' % x.lower()
         shutil.copy(rs, WT + '/tests/%s.rs' % name)
         rc, log = sh('cargo test --offline --test %s' % name, WT, timeout=1800)
@@ -64,7 +64,7 @@ def run_demo(pid, x, out):
         txt = open(shf).read().replace('%s/%s/wt' % (SEEDROOT, pid), WT).replace('%s/%s/target' % (SEEDROOT, pid), TARGET + '_demo')
         p = ROOT + '/demo.sh'
         open(p, 'w').write(txt); os.chmod(p, 0o755)
-        rc, log = sh('bash %s' % p, WT, env={'CARGO_TARGET_DIR': TARGET + '_demo'}, timeout=1800)
+        rc, log = sh('bash %s %s' % (p, rs if os.path.exists(rs) else ''), WT, env={'CARGO_TARGET_DIR': TARGET + '_demo'}, timeout=1800)
         return rc, log, 'bash %s.demo.sh (run from the worktree root)' % x
     return None, 'no demo found', ''
 
